@@ -229,6 +229,13 @@ def run(ctx):
             d = gen.any_dataset(rng, fam, **kw)
             ds = d.ds
             gen.add_data_vars(rng, ds, {'face': d.spec['kinds']['face']}, names_prefix='q', n_extra_max=1)
+            if fam == 'shoc_simple' and 'time' in ds.dims:
+                # SHOC simple files name their time coordinate 'time' (the convention looks it up by name); a bare
+                # dimension of that name without a variable is an artefact of the generator, not a SHOC file
+                tv = xarray.DataArray(numpy.array(['2000-01-01', '2000-01-02', '2000-01-03'][:ds.sizes['time']],
+                                                  dtype='datetime64[ns]'), dims=['time'])
+                tv.encoding['units'] = 'days since 1990-01-01 00:00:00 +10:00'
+                ds.coords['time'] = tv
             src = os.path.join(tmp, f'in_{n}.nc')
             enc = {v: {'_FillValue': None} for v in ds.variables if '_FillValue' not in ds[v].attrs and ds[v].dtype.kind == 'f'}
             with warnings.catch_warnings():
@@ -290,21 +297,35 @@ def run(ctx):
                 if shape_kind == 'miss_first':
                     rows.insert(0, {'name': 'far', 'lon': far[0], 'lat': far[1], 'extra': -1.0})
                 csv = os.path.join(tmp, f'pts_{n}_{policy}.csv')
-                lines = ['name,lon,lat,extra'] + [f"{r_['name']},{r_['lon']!r},{r_['lat']!r},{r_['extra']!r}" for r_ in rows]
+                # column layout: the documented default, latitude before longitude, and user-named columns in either order
+                lonn, latn, order, cflag = rng.choice([
+                    ('lon', 'lat', ['name', 'lon', 'lat', 'extra'], []),
+                    ('lon', 'lat', ['lat', 'name', 'lon', 'extra'], []),
+                    ('lon', 'lat', ['name', 'lat', 'lon', 'extra'], ['-c', 'lon', 'lat']),
+                    ('easting', 'northing', ['northing', 'easting', 'name', 'extra'], ['-c', 'easting', 'northing']),
+                    ('x', 'y', ['name', 'extra', 'x', 'y'], ['--coordinate-columns', 'x', 'y']),
+                    ('b', 'a', ['a', 'b', 'name', 'extra'], ['-c', 'b', 'a'])])
+                dimflag = rng.choice([[], [], ['-d', 'station'], ['--point-dimension', 'obs']])
+                key_of = {'name': 'name', lonn: 'lon', latn: 'lat', 'extra': 'extra'}
+                fmt = lambda v: v if isinstance(v, str) else repr(v)
+                lines = [','.join(order)] + [','.join(fmt(r_[key_of[c]]) for c in order) for r_ in rows]
                 if shape_kind in ('empty_row', 'empty_row_then_miss'):
                     lines.insert(2 if len(lines) > 2 else 1, ',,,')       # spreadsheet exports pad with empty rows
                 open(csv, 'w').write('\n'.join(lines) + '\n')
                 out = os.path.join(tmp, f'cli_pts_{n}_{policy}.nc')
-                argv = ['extract-points', src, csv, out, '--missing-points', policy]
+                argv = ['extract-points', src, csv, out, '--missing-points', policy] + cflag + dimflag
                 code, err = run_cli(argv)
-                case = {'dataset': label, 'command': ['extract-points', '<in>', '<csv>', '<out>', '--missing-points', policy],
-                        'csv': lines}
+                case = {'dataset': label, 'command': ['extract-points', '<in>', '<csv>', '<out>', '--missing-points', policy]
+                        + cflag + dimflag, 'csv': lines}
                 ctx.case((label, 'extract', policy, tuple(lines)), True)
                 ctx.count(f'extract:{policy}:{shape_kind}')
+                ctx.count(f"extract:columns:{','.join(order)}:{' '.join(cflag) or 'default'}")
                 df = pandas.read_csv(csv)
                 with warnings.catch_warnings():
                     warnings.simplefilter('ignore')
-                    lr = attempt(lambda: point_extraction.extract_dataframe(ondisk, df, ('lon', 'lat'), missing_points=policy))
+                    lr = attempt(lambda: point_extraction.extract_dataframe(
+                        ondisk, df, (lonn, latn), missing_points=policy,
+                        **({'point_dimension': dimflag[1]} if dimflag else {})))
                 if lr[0] != 'ok':
                     if code == 0 or os.path.exists(out):
                         ctx.report('property', f'library extract_dataframe fails ({lr[1]}) but the command ended with status {code}'
